@@ -64,6 +64,11 @@ func (t *tStructProto) structPack(m erpc.Message) error {
 	} else if bodyCodec != codec.ID_THRIFT {
 		return errors.New("body codec must be thrift")
 	}
+	// check the body before anything is buffered: Pack's error path flushes the buffer
+	s, ok := m.Body().(thrift.TStruct)
+	if !ok {
+		return fmt.Errorf("thrift codec: %T does not implement thrift.TStruct", m.Body())
+	}
 	t.packLock.Lock()
 	defer t.packLock.Unlock()
 	t.rwCounter.WriteCounter.Zero()
@@ -73,10 +78,6 @@ func (t *tStructProto) structPack(m erpc.Message) error {
 		return err
 	}
 
-	s, ok := m.Body().(thrift.TStruct)
-	if !ok {
-		return fmt.Errorf("thrift codec: %T does not implement thrift.TStruct", m.Body())
-	}
 	if err = s.Write(t.tProtocol); err != nil {
 		return err
 	}
